@@ -486,6 +486,28 @@ func genJSON(g *gen, th bool, scale int) {
 	for k := 0; k < 3000*scale; k++ {
 		g.add(true, "json rt %s", wireOf(jg.value(r.Range(0, 5))))
 	}
+	// ---------- jq literal: to_jq | from_jq (same values; keys of every shape: identifiers, jq
+	// keywords, non-identifiers, empty)
+	kg := &jsonGen{r: r, intBits: 300, keyFn: func(r *hlib.Rand) string {
+		pool := []string{"", "a", "_", "_a1", "A9", "true", "false", "null", "and", "or", "not", "if", "then", "else", "end", "reduce", "foreach", "def", "as", "import", "include", "label", "try", "catch", "__loc__", "9a", "a-b", "a.b", "a b", "é", "a\n", "$a", "@a", "a:", "\"a\""}
+		if r.Intn(3) == 0 {
+			return identKey(r)
+		}
+		if r.Intn(4) == 0 {
+			return defaultStr(r)
+		}
+		return pool[r.Intn(len(pool))]
+	}}
+	for _, w := range []string{"n", "t", "f", "i0", "i-1", "i-123456789012345678901234567890", "s-", "[]", "{}", "[s-]", "{s-:s-}", "{s-:i-1}", "{s61:[i1,{s62:s63}]}", "[i-1,[i-2,{s61:i-3}]]"} {
+		g.add(true, "jqlit rt %s", w)
+	}
+	for cp := rune(0); cp <= 0x100; cp++ {
+		g.add(true, "jqlit rt %s", wireOf(string(cp)))
+		g.add(true, "jqlit rt %s", wireOf(map[string]any{string(cp): 1, "a" + string(cp): 2, string(cp) + "a": -3}))
+	}
+	for k := 0; k < 3000*scale; k++ {
+		g.add(true, "jqlit rt %s", wireOf(kg.value(r.Range(0, 5))))
+	}
 	for k := 0; k < 300*scale; k++ {
 		g.add(true, "json rt %s", wireOf(jg.integer()))
 	}
